@@ -8,6 +8,9 @@ VERIF = os.path.dirname(os.path.dirname(os.path.abspath(__file__)))
 BASELINE_OFF = ("cd /repo && GOFLAGS=-mod=mod GOPROXY=off GOSUMDB=off go test -mod=mod -json -vet=off -count=1 "
                 "-timeout 25m ./...")
 
+LIFE = ("Trusts the hook placement (after the step, on the goroutine that performed it), the harness-owned listener and the trace specification's relaxation of "
+        "guards the log cannot know; liveness is decided by TLC on the model and observed as end-of-scenario release on the code.")
+
 # id -> (technique, level text, level note)
 CHECKS = {
     'C04': ("TLC state graphs of ClientHelloCapture.tla / ClientHelloCaptureLen.tla replayed path-by-path into "
@@ -66,6 +69,27 @@ CHECKS = {
             "All frame types x stream-id classes x length/padding/flag classes x HEADERS/CONTINUATION states are enumerated at two read limits; the real outcome must be in the "
             "RFC-permitted set with the exact error code and scope; every frame is also truncated at every offset; all Write* boundary parameters round-trip byte-exactly.",
             "Harness serializer trusted; random bit flips are sampled exploration; header-block validity is C13's."),
+    'C10': ("ProxyServer.tla (connection lifecycle with client aborts anywhere and panics in user callbacks; PanicConfined under fairness) checked by TLC; "
+            "panics injected into GetCertificate / ConnState(h2) / ConnState(h1) against the real server in a child process; abusive client scripts "
+            "(garbage, plain HTTP, aborts at random byte offsets, stalls) in-process with their hook traces validated by TLC",
+            "TLC explores every interleaving of two connections with faults; the real process must survive each injected panic and keep serving both protocols, "
+            "and every abusive run must be a behaviour of the specification.",
+            "%s I/O-error injection per operation index is not built; client-side aborts stand in." % LIFE),
+    'C11': ("ProxyServer.tla, EventuallyReleased under weak fairness checked by TLC; lifecycle traces of the real proxyserver (hooks + harness-owned listener) "
+            "validated by TLC, each trace ending in 'every accepted connection exited, closed and counted'; TLC's hand-off race forced with a blocking hook; timeout scenario",
+            "Release of every accepted connection is decided for all interleavings on the model and demanded at the end of every recorded scenario; stalled handshakes and "
+            "idle HTTP/1.1 and HTTP/2 connections must be cut by the proxy itself while the clients keep their side open.",
+            LIFE),
+    'C16': ("ProxyServer.tla invariants CountedOnce / TrueLabels / FailedMeansZero over all six client kinds checked by TLC; recorded traces validated with the counted hook "
+            "attributed per connection; Prometheus registry compared with the attributed bag and the number of accepted connections",
+            "Exactly-once counting with true labels is decided for all interleavings of two connections with cancellation, aborts and panics; on the code every scenario's "
+            "registry must equal the per-connection increments the trace specification accepted.",
+            LIFE),
+    'C17': ("ProxyServer.tla, ShutdownCompletes under fairness + NotServedAfterCancel / ServeReturnsClosed / ReturnedMeansDrained checked by TLC; states at the instant of cancel "
+            "constructed on the real server (none, early, idle, handshaking, mixed, repeated, gated hand-off race) and replayed; traces validated",
+            "Shutdown is decided for cancellation in every reachable model state; on the code each constructed state is cancelled and return value, listener state, late "
+            "connections, and latency class are compared with the specification.",
+            LIFE + " An HTTP/1.1 exchange held across cancel is not constructed in the quick tier."),
 }
 
 NOT_YET = {}
